@@ -33,6 +33,16 @@ def run(ck: Check, repo: Repo) -> None:
     ck.rule("C14.3", "policy-gradient agents bring evaluation-mode continuous actions into the bounds (rescale squashed outputs, clip the others)")
     ck.rule("C14.5", "array-kind agreement on the clipping path: a value that has become a numpy array is not combined arithmetically with the "
                      "actor's torch bound tensors (scale_action)")
+    ck.rule("C14.6", "batch size of locally generated actions / default masks: wherever get_action measures the prepared observation (len(x), x.size(0), "
+                     "x.shape[0]) the measured object is a tensor leaf — the observation itself only where it cannot be a dict or tuple, a member of it "
+                     "only under the matching isinstance test")
+    n_meas = 0
+    for modname, q in (("agilerl.algorithms.dqn", "DQN.get_action"), ("agilerl.algorithms.cqn", "CQN.get_action")):
+        n_meas += _batch_measure(ck, repo, repo.fn(modname, q))
+    ck.floor("C14.6", n_meas, 4, "places where a value-based get_action measures the prepared observation")
+    ck.rule("C14.7", "IPPO: the masks of the agents sharing a policy are collected per agent in observation order and combined on a new LEADING axis "
+                     "(agent-major, like the concatenated observations), so that mask.view(logits.shape) pairs every row of logits with the mask of the same agent and environment")
+    _ippo_masks(ck, repo)
     n_arg = 0
     for modname, q, mask in DISCRETE:
         n_arg += _discrete(ck, repo, repo.fn(modname, q), mask)
@@ -137,6 +147,13 @@ def _multi_discrete(ck: Check, repo: Repo, fn: Fn) -> int:
     label = fn.qualname
     args = [c for c in calls_in(fn.node) if last_attr(c) == "argmax"]
     n = 0
+    # roles of the locals: (action masks, environment-defined actions, agent masks) = self.process_infos(infos)
+    am = eda = gm = "?"
+    for a_ in walk_no_nested(fn.node):
+        if isinstance(a_, ast.Assign) and isinstance(a_.value, ast.Call) and call_name(a_.value) == "self.process_infos" and isinstance(a_.targets[0], ast.Tuple) \
+                and len(a_.targets[0].elts) == 3 and all(isinstance(e, ast.Name) for e in a_.targets[0].elts):
+            am, eda, gm = (e.id for e in a_.targets[0].elts)
+    ck.ob("C14.1", fn, fn.node, am != "?", f"{label}: the masks come from self.process_infos(infos)", construct=f"{label}: process_infos unpack")
     for c in args:
         node = cfg.node_of(c)
         n += 1
@@ -152,16 +169,145 @@ def _multi_discrete(ck: Check, repo: Repo, fn: Fn) -> int:
                 if isinstance(mk, ast.Name):
                     md = cfg.defs_reaching(d, mk.id)
                     vals = [cfg.value_of_def(x, mk.id) for x in md]
-                    ok = bool(vals) and all(isinstance(x, ast.IfExp) and ast.unparse(x.body).replace(" ", "").startswith("1-np.array(action_masks[") and const_value(x.orelse) is None
+                    ok = bool(vals) and all(isinstance(x, ast.IfExp) and ast.unparse(x.body).replace(" ", "").startswith(f"1-np.array({am}[") and ast.unparse(x.test).replace(" ", "").startswith(f"{am}[") and const_value(x.orelse) is None
                                             and "is not None" in ast.unparse(x.test) for x in vals)
                     why = f"mask = {[short(x, 70) for x in vals]}"
         ck.ob("C14.1", fn, c, ok, f"{label}: the per-agent arg-max runs over a masked array hiding illegal actions (mask = 1 - action_mask of that agent)", detail=why)
         ck.ob("C14.1", fn, c, const_value(get_kw(c, "axis")) == -1, f"{label}: the arg-max runs over the action axis")
     # env-defined actions overwrite with the environment's own actions under the agent's mask
-    sets = [n_ for n_ in walk_no_nested(fn.node) if isinstance(n_, ast.Assign) and isinstance(n_.targets[0], ast.Subscript) and "agent_masks[agent]" in ast.unparse(n_.targets[0].slice)]
+    sets = [n_ for n_ in walk_no_nested(fn.node) if isinstance(n_, ast.Assign) and isinstance(n_.targets[0], ast.Subscript) and isinstance(n_.targets[0].slice, ast.Subscript)
+            and dotted(n_.targets[0].slice.value) == gm]
     for s in sets:
-        ok = "env_defined_actions[agent][agent_masks[agent]]" in ast.unparse(s.value)
+        sl = ast.unparse(s.targets[0].slice)  # <agent masks>[<agent>]
+        ag = ast.unparse(s.targets[0].slice.slice)
+        ok = f"{eda}[{ag}][{sl}]" in ast.unparse(s.value)
         ck.ob("C14.1", fn, s, ok, f"{label}: environment-defined actions replace the policy's action exactly where the agent's mask says so")
+    return n
+
+
+# ------------------------------------------------------------------------------------------------ C14.7
+_LEADING_COMBINERS = {"torch.Tensor", "torch.tensor", "torch.as_tensor", "torch.FloatTensor", "np.array", "np.asarray", "numpy.array"}
+_STACKERS = {"np.stack", "torch.stack", "numpy.stack"}
+
+
+def _ippo_masks(ck: Check, repo: Repo) -> None:
+    fn = repo.fn("agilerl.algorithms.ippo", "IPPO.extract_action_masks")
+    # (a) collection: for <agent>, <info> in infos.items(): <box>[self.get_homo_id(<agent>)].append(...)
+    loops = [n for n in walk_no_nested(fn.node) if isinstance(n, ast.For) and isinstance(n.iter, ast.Call) and ast.unparse(n.iter) == "infos.items()" and isinstance(n.target, ast.Tuple)]
+    okc = False
+    box = None
+    for lp in loops:
+        agent = dotted(lp.target.elts[0])
+        hid = [a.targets[0].id for a in ast.walk(lp) if isinstance(a, ast.Assign) and isinstance(a.targets[0], ast.Name) and isinstance(a.value, ast.Call)
+               and call_name(a.value) == "self.get_homo_id" and a.value.args and dotted(a.value.args[0]) == agent]
+        for c in calls_in(lp, nested=True):
+            if last_attr(c) == "append" and isinstance(c.func.value, ast.Subscript) and isinstance(c.func.value.value, ast.Name) and dotted(c.func.value.slice) in hid:
+                okc, box = True, c.func.value.value.id
+    ck.ob("C14.7", fn, loops[0] if loops else fn.node, okc, "IPPO.extract_action_masks: one mask per agent is appended to its policy group's list in the order of the info dict",
+          construct="IPPO.extract_action_masks: collection loop")
+    # (b) combination: <box>[g] = <combiner>(<box>[g]) on the leading axis
+    n = 0
+    for a in walk_no_nested(fn.node):
+        if not (isinstance(a, ast.Assign) and isinstance(a.targets[0], ast.Subscript) and dotted(a.targets[0].value) == box and isinstance(a.value, ast.Call)):
+            continue
+        tgt = ast.unparse(a.targets[0])
+        inner = [c for c in ast.walk(a.value) if isinstance(c, ast.Call) and c.args and ast.unparse(c.args[0]) == tgt]
+        if not inner:
+            continue
+        n += 1
+        c = inner[0]
+        nm = call_name(c)
+        axis = get_kw(c, "axis") or get_kw(c, "dim") or (c.args[1] if len(c.args) > 1 and nm in _STACKERS else None)
+        ok = nm in _LEADING_COMBINERS or (nm in _STACKERS and (axis is None or const_value(axis) == 0))
+        ck.ob("C14.7", fn, c, ok, "IPPO.extract_action_masks: the group's masks are combined on a new leading axis (agent-major)",
+              detail=f"combined by `{short(c, 70)}`: with several environments the agent axis is not the leading one, while observations and logits of the group are "
+                     "concatenated agent-major; mask.view(logits.shape) then gives a row the mask of another (agent, environment) pair",
+              construct="IPPO.extract_action_masks: combination of the group's masks")
+    ck.floor("C14.7", n, 1, "combination of a policy group's masks", fn=fn)
+    # the consumer reshapes by view(): it relies on identical element order
+    ap = repo.fn("agilerl.networks.distributions", "EvolvableDistribution.apply_mask")
+    ck.ob("C14.7", ap, ap.node, has(ap.node, "$_.view($_.shape)"), "apply_mask reinterprets the mask with the logits' shape by view(): element order must already agree",
+          construct="apply_mask view")
+
+
+# ------------------------------------------------------------------------------------------------ C14.6
+def _batch_measure(ck: Check, repo: Repo, fn: Fn) -> int:
+    from ..domains import conjuncts
+    cfg = CFG(fn.node)
+    label = fn.qualname
+    # the prepared observation: every name assigned from self.preprocess_observation(...)
+    prepared: Set[str] = set()
+    for a in walk_no_nested(fn.node):
+        if isinstance(a, ast.Assign) and isinstance(a.value, ast.Call) and call_name(a.value) == "self.preprocess_observation" and isinstance(a.targets[0], ast.Name):
+            prepared.add(a.targets[0].id)
+    ck.ob("C14.6", fn, fn.node, bool(prepared), f"{label}: the observation is prepared by self.preprocess_observation", construct=f"{label}: prepared observation")
+
+    def kinds_of(e: ast.AST, node: Node, guards: List[Tuple[str, bool]], depth: int = 0) -> List[Tuple[str, str, List[Tuple[str, bool]]]]:
+        """[(kind, prepared name, guards)] for an expression that may denote (a member of) the prepared observation; kind in whole / tuple-elem / dict-value / other."""
+        if depth > 4:
+            return [("other", "", guards)]
+        if isinstance(e, ast.Name) and e.id in prepared:
+            return [("whole", e.id, guards)]
+        if isinstance(e, ast.Subscript) and isinstance(e.value, ast.Name) and e.value.id in prepared:
+            return [("tuple-elem", e.value.id, guards)]
+        if isinstance(e, ast.Call) and call_name(e) == "next" and e.args and isinstance(e.args[0], ast.Call) and call_name(e.args[0]) == "iter" and e.args[0].args:
+            inner = e.args[0].args[0]
+            if isinstance(inner, ast.Call) and last_attr(inner) == "values" and isinstance(inner.func.value, ast.Name) and inner.func.value.id in prepared:
+                return [("dict-value", inner.func.value.id, guards)]
+        if isinstance(e, ast.IfExp):
+            gt = [(ast.unparse(a), p) for a, p in conjuncts(e.test, True)]
+            gf = [(ast.unparse(a), p) for a, p in conjuncts(e.test, False)]
+            return kinds_of(e.body, node, guards + gt, depth + 1) + kinds_of(e.orelse, node, guards + gf, depth + 1)
+        if isinstance(e, ast.Name):
+            out = []
+            for d in cfg.defs_reaching(node, e.id):
+                v = cfg.value_of_def(d, e.id)
+                if v is None:
+                    out.append(("other", "", guards))
+                    continue
+                gd = [(ast.unparse(a), p) for g, pol, _ in cfg.guards_at(d) for a, p in conjuncts(g, pol)]
+                out += kinds_of(v, d, guards + gd, depth + 1)
+            return out or [("other", "", guards)]
+        return [("other", "", guards)]
+
+    def excluded(name: str, typ: str, guards: List[Tuple[str, bool]]) -> bool:
+        for t, pol in guards:
+            if not pol and t.replace(" ", "").startswith(f"isinstance({name},") and typ in t:
+                return True
+        return False
+
+    def asserted(name: str, typ: str, guards: List[Tuple[str, bool]]) -> bool:
+        return any(pol and t.replace(" ", "").startswith(f"isinstance({name},") and typ in t for t, pol in guards)
+
+    n = 0
+    for x in walk_no_nested(fn.node):
+        base = None
+        if isinstance(x, ast.Call) and call_name(x) == "len" and len(x.args) == 1:
+            base = x.args[0]
+        elif isinstance(x, ast.Call) and last_attr(x) == "size" and len(x.args) == 1 and const_value(x.args[0]) == 0:
+            base = x.func.value
+        elif isinstance(x, ast.Subscript) and isinstance(x.value, ast.Attribute) and x.value.attr == "shape" and const_value(x.slice) == 0:
+            base = x.value.value
+        if base is None:
+            continue
+        node = cfg.node_of(x)
+        if node is None:
+            continue
+        here = [(ast.unparse(a), p) for g, pol, _ in cfg.guards_at(node) for a, p in conjuncts(g, pol)]
+        alts = kinds_of(base, node, here)
+        if all(k == "other" for k, _, _ in alts):
+            continue
+        n += 1
+        bad = []
+        for kind, nm, gs in alts:
+            if kind == "whole" and not (excluded(nm, "dict", gs) and excluded(nm, "tuple", gs)):
+                bad.append(f"`{nm}` itself is measured where it may still be a dict or a tuple (Dict / Tuple observation spaces): the result is the number of keys / members, not the batch size")
+            elif kind == "tuple-elem" and not asserted(nm, "tuple", gs):
+                bad.append(f"`{nm}[...]` is measured without an isinstance({nm}, tuple) test")
+            elif kind == "dict-value" and not asserted(nm, "dict", gs):
+                bad.append(f"a value of `{nm}` is measured without an isinstance({nm}, dict) test")
+        ck.ob("C14.6", fn, x, not bad, f"{label}: the batch size is read from a tensor leaf of the prepared observation",
+              detail="; ".join(bad) or f"alternatives: {[k for k, _, _ in alts]}", construct=f"{label}: batch size via {short(x, 60)}")
     return n
 
 
@@ -322,12 +468,21 @@ def _policy_gradient(ck: Check, repo: Repo) -> None:
 def _dqn_wrapper(ck: Check, repo: Repo) -> None:
     fn = repo.fn("agilerl.algorithms.dqn", "DQN.get_action")
     src = ast.unparse(fn.node)
-    ck.ob("C14.1", fn, fn.node, has(src, '$action_mask = torch.ones(($batch_size, self.action_dim), device=$device)'), "DQN: no mask means every action is legal (mask of ones)",
+    ck.ob("C14.1", fn, fn.node, has(src, '$action_mask = torch.ones(($_, self.action_dim), device=$_)'), "DQN: no mask means every action is legal (mask of ones)",
           construct="DQN.get_action default mask")
     ck.ob("C14.1", fn, fn.node, has(src, 'self._get_action($torch_obs, $epsilon, $action_mask)'), "DQN: the mask reaches the action selection", construct="DQN.get_action passes mask")
     inner = repo.fn("agilerl.algorithms.dqn", "DQN._get_action")
     s2 = ast.unparse(inner.node)
-    ck.ob("C14.1", inner, inner.node, "torch.where(use_policy, masked_policy_actions, masked_random_actions)" in s2, "DQN: both the greedy and the exploratory candidate are masked choices",
+    icfg = CFG(inner.node)
+    wh = [c for c in calls_in(inner.node) if call_name(c) == "torch.where" and len(c.args) == 3 and all(isinstance(a, ast.Name) for a in c.args[1:])]
+    okw = False
+    for c in wh:
+        nd = icfg.node_of(c)
+        cands = [[icfg.value_of_def(d, a.id) for d in icfg.defs_reaching(nd, a.id)] for a in c.args[1:]]
+        # both alternatives are arg-max results (every arg-max operand is shown to be masked by the rule above)
+        if all(v and all(isinstance(x, ast.Call) and last_attr(x) == "argmax" for x in v) for v in cands) and c.args[1].id != c.args[2].id:
+            okw = True
+    ck.ob("C14.1", inner, wh[0] if wh else inner.node, okw, "DQN: both the greedy and the exploratory candidate are masked choices",
           construct="DQN._get_action final choice")
 
 
@@ -342,11 +497,15 @@ VARIANTS = [
     ("dqn-mask-polarity", _DQ, "q_values.masked_fill((1 - action_mask).bool(), float(\"-inf\"))", "q_values.masked_fill(action_mask.bool(), float(\"-inf\"))", "fire", "C14.1"),
     ("dqn-mask-by-multiplication", _DQ, "masked_q_values = q_values.masked_fill((1 - action_mask).bool(), float(\"-inf\"))", "masked_q_values = q_values * action_mask", "fire", "C14.1"),
     ("dqn-random-unmasked", _DQ, "masked_random_values = torch.rand_like(q_values) * action_mask", "masked_random_values = torch.rand_like(q_values)", "fire", "C14.1"),
+    ("ippo-masks-env-major", "agilerl/algorithms/ippo.py", "action_masks[homo_id] = torch.Tensor(action_masks[homo_id])", "action_masks[homo_id] = torch.as_tensor(np.stack(action_masks[homo_id], axis=-2), dtype=torch.float32)", "fire", "C14.7"),
+    ("ippo-masks-stack0-ok", "agilerl/algorithms/ippo.py", "action_masks[homo_id] = torch.Tensor(action_masks[homo_id])", "action_masks[homo_id] = torch.as_tensor(np.stack(action_masks[homo_id], axis=0), dtype=torch.float32)", "silent", None),
+    ("cqn-batch-len-container", "agilerl/algorithms/cqn.py", "                batch_size = len(next(iter(obs.values())))", "                batch_size = len(obs)", "fire", "C14.6"),
+    ("dqn-batch-inline-ok", "agilerl/algorithms/dqn.py", "                batch_size = torch_obs.size(0)\n\n            action_mask = torch.ones((batch_size, self.action_dim), device=device)", "                batch_size = torch_obs.shape[0]\n\n            action_mask = torch.ones((batch_size, self.action_dim), device=device)", "silent", None),
     ("dqn-where-form-ok", _DQ, "masked_q_values = q_values.masked_fill((1 - action_mask).bool(), float(\"-inf\"))", "masked_q_values = torch.where(action_mask.bool(), q_values, float(\"-inf\"))", "silent", None),
     ("rainbow-mask-not-inverted", _RB, "            inv_mask = 1 - action_mask\n            masked_action_values = np.ma.array(\n                action_values.cpu().data.numpy(), mask=inv_mask\n            )",
      "            masked_action_values = np.ma.array(\n                action_values.cpu().data.numpy(), mask=action_mask\n            )", "fire", "C14.1"),
     ("rainbow-argmax-unmasked", _RB, "            action = np.argmax(masked_action_values, axis=-1)\n\n        self.actor.train()", "            action = np.argmax(action_values.cpu().data.numpy(), axis=-1)\n\n        self.actor.train()", "fire", "C14.1"),
-    ("cqn-random-ignores-mask", _CQ, "                        np.random.uniform(0, 1, (len(obs), self.action_dim))\n                        * action_mask\n", "                        np.random.uniform(0, 1, (len(obs), self.action_dim))\n", "fire", "C14.1"),
+    ("cqn-random-ignores-mask", _CQ, "                        np.random.uniform(0, 1, (batch_size, self.action_dim))\n                        * action_mask\n", "                        np.random.uniform(0, 1, (batch_size, self.action_dim))\n", "fire", "C14.1"),
     ("ucb-mask-not-inverted", _UCB, "            inv_mask = 1 - action_mask\n", "            inv_mask = action_mask\n", "fire", "C14.1"),
     ("ddpg-noise-after-clip", _DD, "        if training:\n            action += self.action_noise()\n\n        return action.clip(self.action_space.low, self.action_space.high)", "        action = action.clip(self.action_space.low, self.action_space.high)\n        if training:\n            action += self.action_noise()\n\n        return action", "fire", "C14.2"),
     ("ddpg-clip-scalar-bound", _DD, "return action.clip(self.action_space.low, self.action_space.high)", "return action.clip(self.action_space.low[0], self.action_space.high[0])", "fire", "C14.2"),
